@@ -136,7 +136,9 @@ def realtime_case(rng):
     world["rules"] = ["l.d = r.d"]
     r1 = {"unique_id": 1, "a": rng.choice(c02.STR_DOM[:4]), "b": "ann", "c": 1, "d": "p", "lab": None}
     r2 = {"unique_id": 2, "a": rng.choice(c02.STR_DOM[:4]), "b": "anne", "c": 2, "d": rng.choice(["p", "q"]), "lab": None}
-    kinds = ["creatorA", "creatorB", "dictA", "dictB"]
+    # mix*: settings DICTS that hold library creator objects (not JSON-serialisable: the cache key takes its fall-back path);
+    # same creator classes in the same positions, differing only in their arguments (column / thresholds / m probabilities)
+    kinds = ["creatorA", "creatorB", "dictA", "dictB", "mixA", "mixB", "mixC"]
     seqs = []
     for n in (1, 2, 3):
         for combo in itertools.product(range(len(kinds) * 2), repeat=n):
@@ -164,8 +166,16 @@ def run_realtime(case):
     out = []
     for seq in case["seqs"]:
         realtime._sql_cache = realtime.SQLCache()
+        import splink.comparison_library as cl
+
+        def mix(c1, c2, thr, ms):
+            return {"link_type": "dedupe_only", "blocking_rules_to_generate_predictions": list(world["rules"]), "probability_two_random_records_match": world["prior"],
+                    "retain_matching_columns": True, "retain_intermediate_calculation_columns": True,
+                    "comparisons": [cl.ExactMatch(c1).configure(m_probabilities=ms, u_probabilities=[0.2, 0.8]), cl.LevenshteinAtThresholds(c2, thr)]}
+
         objs = {"creatorA": SettingsCreator(**json.loads(json.dumps(sdA))), "creatorB": SettingsCreator(**json.loads(json.dumps(sdB))),
-                "dictA": json.loads(json.dumps(sdA)), "dictB": json.loads(json.dumps(sdB))}
+                "dictA": json.loads(json.dumps(sdA)), "dictB": json.loads(json.dumps(sdB)),
+                "mixA": mix("a", "b", [1], [0.9, 0.1]), "mixB": mix("b", "a", [2], [0.9, 0.1]), "mixC": mix("a", "b", [1], [0.6, 0.4])}
         api = impl.make_api(world["engine"], threads=1)
         res = []
         for kind, flag in seq:
@@ -213,7 +223,7 @@ def run(ctx: core.Ctx):
         "compute_tf_table, register_term_frequency_lookup, find_matches_to_new_records, compare_two_records, compute_graph_metrics, invalidate_cache, mutate-input+invalidate_cache, "
         "delete_tables_created_by_splink_from_db} on one linker over a real table (6-12 records, 2-3 comparisons, TF on exact levels), duckdb+sqlite; after EVERY step predict() is compared with a fresh linker "
         "(new database, current data, saved model, same registered lookups) and the observed cache events are replayed through the Lean state machine; "
-        "(c) realtime compare_records: sampled call sequences of length 1-3 over 2 SettingsCreator objects + 2 dicts x both flag values, cached vs uncached. "
+        "(c) realtime compare_records: sampled call sequences of length 1-3 over 2 SettingsCreator objects + 2 plain dicts + 3 dicts holding library creator objects (same classes, different arguments) x both flag values, cached vs uncached. "
         "non-trivial = history with >= 3 steps that reuses a cached table (at least one hit) / any realtime case; distinct = hash of the case."
     )
     ctx.assumptions = [
